@@ -25,7 +25,7 @@ def check(pid, category, text, note, technique, design_ref):
 TB = "Trusted base: rustc nightly's MIR construction, drop elaboration, type checking and trait resolution; the std model table in analysis/model.py; user callbacks are ownership-balanced; unsafe callers honour from_raw-style contracts."
 
 check("C01", "other",
-      "Exhaustive static path analysis of every API body (MIR, all feature configurations): count word and owning handle values move in lock-step on every normal and unwind path; frees only after a decrement that observed 1 or by the typed sole owner; one increment/decrement funnel; conversions count-neutral. Decides preservation of count = owners by every operation, hence by every history. Does not decide what reads through a handle observe.",
+      "Exhaustive static path analysis of every API body (MIR, all feature configurations): count word and owning handle values move in lock-step on every normal and unwind path; frees only after a decrement that observed 1 or by the typed sole owner, and every exit of that last release (unwinding from a payload destructor included) has freed exactly once; one increment/decrement funnel; conversions count-neutral. Decides preservation of count = owners by every operation, hence by every history. Does not decide what reads through a handle observe.",
       TB, "MIR ownership/count balance analysis (path enumeration + callee summaries)", "DESIGN.md 3, 4/C01")
 
 ALL = ["C%02d" % i for i in range(1, 18)]
